@@ -31,3 +31,7 @@ ASSUMPTIONS = [
 
 # dimensions added in seeded rounds 6 and 7
 PROBES = list(PROBES) + ["twin-compared:fold", "twin-compared:dedisperse", "twin-compared:compute_stats", "twin-compared:read_chan", "bandwidth-card-sign-differs-from-the-frequency-table", "single-row-file", "scales-offsets-weights-differ-from-row-to-row"]
+
+# dimensions added in seeded round 10
+PROBES = list(PROBES) + ["all-numeric-header-fields-checked", "primary-cards-with-placeholder-values"]
+RULE = RULE + " Round 10: optional primary cards (IBEAM, CHAN_DM, NBEAM, SCANLEN, BMAJ, BMIN, BPA, PNT_ID) are absent, numeric, '*', a quoted number or empty in 3/4 of the files; EVERY Header field annotated int/float must be a plain number."
